@@ -381,7 +381,13 @@ func init() {
 			}
 			for b, nb := 0, r.rangeI(1, 3); b < nb; b++ {
 				for j, n := 0, r.rangeI(2, 5); j < n; j++ {
-					ops = append(ops, fmt.Sprintf("m%d", []int{0, 30, 40, 64, 80, 100, 120, 150, 300, 4096}[r.intn(10)]))
+					v := []int{0, 30, 40, 64, 80, 100, 120, 150, 300, 4096}[r.intn(10)]
+					if i%2 == 1 && r.chance(1, 2) {
+						// ... and the LIMIT moved in the same interval (SetMaxDynamicTableSizeLimit shrinks the table too)
+						ops = append(ops, fmt.Sprintf("l%d", v))
+					} else {
+						ops = append(ops, fmt.Sprintf("m%d", v))
+					}
 				}
 				for j, n := 0, r.rangeI(1, 4); j < n; j++ {
 					ops = append(ops, small())
